@@ -41,6 +41,24 @@ def _content_eq(c1, c2):
                 return False
     return r
 
+def canonical_state(ex, s):
+    """Soundness of treating hash outputs as formal indeterminates: on every path, syntactically different
+    absorbed contents must be semantically different. If the content of this stream may equal (under the path
+    condition) a content that was hashed before, the path forks: on the 'equal' branch the earlier state term
+    is reused (so every derived term is syntactically identical), on the other branch the contents differ."""
+    content = s.content()
+    reg = ex.pstate.setdefault('hashed', [])
+    for (c2, st2) in reg:
+        ce = _content_eq(content, c2)
+        if ce is False:
+            continue
+        if ce is True:
+            return st2
+        if ex.decide(ce):
+            return st2
+    reg.append((content, s.st))
+    return s.st
+
 def register_digest(ex, content, outs):
     """collision resistance of the modelled hash functions: equal digests (>= 16 bytes) imply equal inputs"""
     if len(outs) < 16:
@@ -62,6 +80,7 @@ class Stream:
         self.readpos = 0
         self.nwritten = 0
         self.shared = False       # set by write-effect harnesses (C19)
+        self.pstate_cst = None
     def clone(self):
         s = Stream(self.alg, self.init, self.size, self.block, self.N, self.S)
         s.st, s.nwritten, s.readpos = self.st, self.nwritten, self.readpos
@@ -94,7 +113,9 @@ def s_write(ex, a, ins):
 def s_read(ex, a, ins):
     s, p = a[0], a[1]
     _mut(ex, s, 'Read')
-    outs = [OUT(s.st, z3.BitVecVal(s.readpos + i, 32)) for i in range(p.len)]
+    cst = canonical_state(ex, s) if s.readpos == 0 else s.pstate_cst
+    s.pstate_cst = cst
+    outs = [OUT(cst, z3.BitVecVal(s.readpos + i, 32)) for i in range(p.len)]
     if s.readpos == 0:
         register_digest(ex, s.content(), outs)
     ex.write_bytes(p, outs)
@@ -103,7 +124,8 @@ def s_read(ex, a, ins):
 
 def s_sum(ex, a, ins):
     s, b = a[0], a[1]
-    dig = [OUT(s.st, z3.BitVecVal(i, 32)) for i in range(s.size)]
+    cst = canonical_state(ex, s)
+    dig = [OUT(cst, z3.BitVecVal(i, 32)) for i in range(s.size)]
     register_digest(ex, s.content(), dig)
     # append semantics: the digest is written in place when the argument has spare capacity
     if isinstance(b, Slice) and isinstance(b.len, int) and isinstance(b.cap, int) and b.ptr.obj is not None and b.cap - b.len >= s.size:
